@@ -280,10 +280,25 @@ def check_visitors(ctx, R="C09.identity"):
     fn = pyvis.get("Call")
     if fn is not None:
         renames = {}
+        nd = fn.args.args[1].arg
+        # roles, not names: the visited callee, the rebuilt argument list, the rebuilt keywords, the argument loop variable
+        nf = lib.local_from(fn, f"self.visit({nd}.func)", what="visited callee")
+        kwl = lib.locals_assigned(fn, lambda v: f"{nd}.keywords" in unparse(v))
+        argl = [v for v in lib.locals_assigned(fn, lambda v: unparse(v) == "[]") if any(isinstance(c, ast.Call) and unparse(c.func) == f"{v}.append" for c in walk_local(fn))]
+        argloops = [l for l in walk_local(fn) if isinstance(l, ast.For) and unparse(l.iter) == f"{nd}.args" and isinstance(l.target, ast.Name)]
+        if len(kwl) != 1 or len(argl) != 1 or len(argloops) != 1:
+            raise AnalysisError("shape not recognised: visit_Call argument / keyword lists")
+        kwl, argl, av = kwl[0], argl[0], argloops[0].target.id
         for n in walk_local(fn):
-            if isinstance(n, ast.Assign) and unparse(n.targets[0]) == "newFunc.id" and isinstance(n.value, ast.Constant):
-                tests = [unparse(t) for t, p in lib.guard_tests(n, fn) if p]
-                src = [t.split("==")[1].strip().strip("'\"") for t in tests if t.startswith("newFunc.id ==")]
+            if isinstance(n, ast.Assign) and unparse(n.targets[0]) == f"{nf}.id" and isinstance(n.value, ast.Constant):
+                tests = [lib.ctext(t) for t, p in lib.guard_tests(n, fn) if p]
+                src = []
+                for t in tests:
+                    for a, b in ((f"{nf}.id == ", None), (None, f" == {nf}.id")):
+                        if a and t.startswith(a):
+                            src.append(t[len(a):].strip().strip("'\""))
+                        if b and t.endswith(b):
+                            src.append(t[: -len(b)].strip().strip("'\""))
                 renames[src[0] if src else "?"] = n.value.value
         if set(renames) == {"str", "float", "int"} and all(v.startswith("_to") and v.endswith("Scenic") for v in renames.values()):
             ctx.ok(R, fn, f"visit_Call renames only {sorted(renames)} to their lifted versions")
@@ -292,7 +307,7 @@ def check_visitors(ctx, R="C09.identity"):
         stars = [n for n in walk_local(fn) if isinstance(n, ast.Call) and isinstance(n.func, ast.Attribute) and unparse(n) .startswith("ast.Call(ast.Name('wrapStarredValue'")]
         for n in stars:
             tests = " && ".join(unparse(t) for t, p in lib.guard_tests(n, fn) if p)
-            if "isinstance(arg, ast.Starred)" in tests:
+            if f"isinstance({av}, ast.Starred)" in tests:
                 ctx.ok(R, n, "visit_Call wraps only starred arguments")
             else:
                 ctx.finding(R, n, "visit_Call star wrapping", f"visit_Call wraps arguments under `{tests}`, not only starred ones")
@@ -301,11 +316,11 @@ def check_visitors(ctx, R="C09.identity"):
             ctx.ok(R, fn, "visit_Call copies the location of the original call")
         else:
             ctx.finding(R, fn, "visit_Call copy_location", "visit_Call returns a rebuilt call without ast.copy_location(·, node)")
-        plain = [n for n in walk_local(fn) if isinstance(n, ast.Call) and unparse(n) == "ast.Call(newFunc, newArgs, newKeywords)"]
+        plain = [n for n in walk_local(fn) if isinstance(n, ast.Call) and unparse(n) == f"ast.Call({nf}, {argl}, {kwl})"]
         if plain:
             ctx.ok(R, plain[0], "an ordinary call is rebuilt as Call(func, args, keywords) in the original order")
         else:
-            ctx.finding(R, fn, "visit_Call plain rebuild", "visit_Call no longer rebuilds ordinary calls as ast.Call(newFunc, newArgs, newKeywords)")
+            ctx.finding(R, fn, "visit_Call plain rebuild", "visit_Call no longer rebuilds ordinary calls as ast.Call(<visited func>, <visited args>, <visited keywords>)")
     # ClassDef
     fn = pyvis.get("ClassDef")
     if fn is not None:
